@@ -1,7 +1,9 @@
 (* Property theorems of the Pool cluster (C16..C21). Nothing but statements, [exact], and
    Print Assumptions. *)
 From FC Require Import Pool.Model Pool.ProofsBase Pool.ProofsCore Pool.ProofsRemoval Pool.ProofsOps
-  Pool.ProofsInsert Pool.ProofsCheck Pool.Proofs18 Pool.Proofs18b Pool.Proofs19 Pool.Proofs20 Pool.Proofs20b Pool.Proofs21.
+  Pool.ProofsInsert Pool.ProofsCheck Pool.Proofs18 Pool.Proofs18b Pool.Proofs19 Pool.Proofs20 Pool.Proofs20b Pool.Proofs21
+  Pool.ProofsHist1 Pool.ProofsHistC Pool.ProofsHist2 Pool.ProofsHist3 Pool.ProofsHist4 Pool.ProofsHist5
+  Pool.ProofsHist6.
 Open Scope N_scope.
 
 (* ------------------------------------------------------------------ *)
@@ -82,6 +84,148 @@ Theorem parents_first_sound : forall g xs seen, parents_first g seen xs = true -
 Proof. exact parents_first_spec. Qed.
 Print Assumptions parents_first_sound.
 
+(* ---- C17 over ALL histories (induction over the operation list, no hypothesis) ----
+   In every pool state reachable from the empty pool by ANY list of worker operations the checker
+   [inv_edges] holds (no duplicate edge, both ends of every edge are stored, the dependency was
+   created strictly before the dependent), i.e.: no dangling edge, every parent of a stored
+   transaction is stored, the dependency graph is acyclic, and the creator caches
+   (coins_creators / contracts_creators) only name stored transactions. *)
+Theorem graph_wellformed_all_histories : forall cfg d h ops,
+  Forall (fun wr => let g := p_g (w_pool (fst wr)) in
+            inv_edges g = true /\
+            (forall a b, In (a, b) (g_edges g) -> In a (tids (txs g)) /\ In b (tids (txs g))) /\
+            (forall id p, In p (parents g id) -> In p (tids (txs g))) /\
+            (forall a, ~ Reach g a a) /\
+            (forall u v, In (u, v) (g_coins g) -> In v (tids (txs g))) /\
+            (forall c v, In (c, v) (g_contracts g) -> In v (tids (txs g))))
+         (run (worker_new cfg d h) ops).
+Proof. exact graph_wellformed_run. Qed.
+Print Assumptions graph_wellformed_all_histories.
+
+(* the invariant behind it is kept by one step from ANY state satisfying it (not only reachable
+   ones), and holds of the empty pool *)
+Theorem hist_inv_step : forall w o, HInv (w_pool w) -> HInv (w_pool (fst (step w o))).
+Proof. exact step_hinv. Qed.
+Print Assumptions hist_inv_step.
+
+Theorem hist_inv_initial : forall cfg, HInv (pool_new cfg).
+Proof. exact hinv_init. Qed.
+Print Assumptions hist_inv_initial.
+
+Theorem hist_inv_meaning : forall p, HInv p ->
+  GraphInv (p_seq p) (p_g p) /\
+  (forall id, has_node (p_g p) id = true -> amem N.eqb id (p_txmap p) = true) /\
+  sorted_keys (p_exec p) = true /\ denpos (p_exec p) /\
+  (forall id n, get_node (p_g p) id = Some n -> n_cnt n <= N.max 1 (cfg_max_chain (p_cfg p))).
+Proof.
+  intros p H. exact (conj (hi_graph p H) (conj (hi_cover p H) (conj (proj1 (hi_exec p H))
+                      (conj (proj2 (hi_exec p H)) (hi_chain p H))))).
+Qed.
+Print Assumptions hist_inv_meaning.
+
+(* ---- the chain bound over ALL histories: in every reachable state the counter
+   number_dependents_in_chain of every stored transaction is at most max_txs_chain_count (at most 1
+   if that is configured as 0, since a transaction without pool dependencies is always accepted).
+   The bound is on the COUNTER (the quantity the admission check reads); that the counter equals the
+   real number of dependents is false in general (K-C17-stale-cumulative-after-lru-overflow) and is
+   not claimed. *)
+Theorem chain_bound_all_histories : forall cfg d h ops,
+  Forall (fun wr => let p := w_pool (fst wr) in
+            forall id n, get_node (p_g p) id = Some n -> n_cnt n <= N.max 1 (cfg_max_chain (p_cfg p)))
+         (run (worker_new cfg d h) ops).
+Proof. exact chain_bound_run. Qed.
+Print Assumptions chain_bound_all_histories.
+
+(* ---- the cascade over ALL histories (PARTIAL: under the hypothesis that the model's panic flag is
+   still false after the operation; the flag records an expect() / debug_assert!() of the
+   implementation failing - a subtree removal meeting an already removed node, a committed id without
+   node, a promoted id without node - and is part of [pool_invb], i.e. checked on every trace; for the
+   subtree removal this is proved for every reachable state by diamond_free_all_histories below,
+   which yields the unconditional cascade_all_histories; this conditional version holds from any
+   state satisfying HInv, reachable or not).
+   In every history, for every operation: an edge of the graph before the operation whose
+   dependency left the pool without being one of the operation's included transactions (handed
+   out, committed by the block, preconfirmed) has lost its dependent too: removal cascades to all
+   dependents.  This is exactly the checker [cascadeb] on the model's own trace. *)
+Theorem cascade_all_histories_partial : forall cfg d h ops,
+  Forall (fun s => p_panic (w_pool (ts_post s)) = false -> cascadeb s = true)
+         (model_trace (worker_new cfg d h) ops).
+Proof. exact cascade_run. Qed.
+Print Assumptions cascade_all_histories_partial.
+
+(* one step from ANY state satisfying the invariant *)
+Theorem cascade_step_partial : forall w o, HInv (w_pool w) -> p_panic (w_pool (fst (step w o))) = false ->
+  forall a b, In (a, b) (g_edges (p_g (w_pool w))) ->
+    has_node (p_g (w_pool (fst (step w o)))) a = false ->
+    ~ In a (incl_ids w o (snd (step w o))) ->
+    has_node (p_g (w_pool (fst (step w o)))) b = false.
+Proof. exact step_cascade. Qed.
+Print Assumptions cascade_step_partial.
+
+(* the subtree removal: if it does not panic, the root and every dependent of a removed
+   transaction are removed *)
+Theorem remove_subtree_cascades_partial : forall s g root g' rm, GraphInv s g ->
+  remove_subtree g root = (g', rm, false) ->
+  has_node g' root = false /\
+  forall a b, In (a, b) (g_edges g) -> has_node g' a = false -> has_node g' b = false.
+Proof. exact remove_subtree_cascade. Qed.
+Print Assumptions remove_subtree_cascades_partial.
+
+(* ---- diamond-freeness and the cascade over ALL histories, WITHOUT hypothesis ----
+   In every reachable state two distinct children of one stored transaction never have a common
+   descendant-or-self (no diamond below any node: can_store_transaction refuses a transaction whose
+   ancestor walk meets a node twice), and therefore the subtree removal started at ANY root never
+   meets an already removed node (its panic flag is false). *)
+Theorem diamond_free_all_histories : forall cfg d h ops,
+  Forall (fun wr => let g := p_g (w_pool (fst wr)) in
+            (forall r c1 c2 y, In (r, c1) (g_edges g) -> In (r, c2) (g_edges g) -> c1 <> c2 ->
+               (c1 = y \/ Reach g c1 y) -> (c2 = y \/ Reach g c2 y) -> False) /\
+            forall root, snd (remove_subtree g root) = false)
+         (run (worker_new cfg d h) ops).
+Proof. exact diamond_free_run. Qed.
+Print Assumptions diamond_free_all_histories.
+
+(* Removal cascades to all dependents, in every history, for every operation, no hypothesis: the
+   checker [cascadeb] holds on every step of the model's own trace - an edge of the graph before
+   the operation whose dependency left the pool without being one of the operation's included
+   transactions (handed out, committed by the block, preconfirmed) has lost its dependent too.
+   (This supersedes cascade_all_histories_partial for reachable states.) *)
+Theorem cascade_all_histories : forall cfg d h ops,
+  Forall (fun s => cascadeb s = true) (model_trace (worker_new cfg d h) ops).
+Proof. exact cascade_run_all. Qed.
+Print Assumptions cascade_all_histories.
+
+(* one step from ANY state satisfying HInv and diamond-freeness; both are kept by the step *)
+Theorem hist_inv2_step : forall w o, Inv2 (w_pool w) -> Inv2 (w_pool (fst (step w o))).
+Proof. exact (fun w o H => proj1 (step_inv2 w o H)). Qed.
+Print Assumptions hist_inv2_step.
+
+Theorem cascade_step : forall w o, Inv2 (w_pool w) ->
+  forall a b, In (a, b) (g_edges (p_g (w_pool w))) ->
+    has_node (p_g (w_pool (fst (step w o)))) a = false ->
+    ~ In a (incl_ids w o (snd (step w o))) ->
+    has_node (p_g (w_pool (fst (step w o)))) b = false.
+Proof. exact step_cascade2. Qed.
+Print Assumptions cascade_step.
+
+(* ---- parents before children, over ALL histories ----
+   From every reachable state and for every constraint value, the list handed out by
+   extract_transactions_for_block contains every pool parent of a transaction before the
+   transaction itself (the checker [parents_first] of step17 / extraction_okb). *)
+Theorem extraction_parents_first_all_histories : forall cfg d h ops,
+  Forall (fun wr => forall cs,
+            parents_first (p_g (w_pool (fst wr))) []
+              (map n_id (snd (extract_transactions_for_block (w_pool (fst wr)) cs))) = true)
+         (run (worker_new cfg d h) ops).
+Proof. exact extraction_parents_first_run. Qed.
+Print Assumptions extraction_parents_first_all_histories.
+
+(* all the history invariants together (HInv, diamond-freeness, executable keys exact) are kept by
+   one step from ANY state satisfying them *)
+Theorem hist_inv3_step : forall w o, Inv3 (w_pool w) -> Inv3 (w_pool (fst (step w o))).
+Proof. exact step_inv3. Qed.
+Print Assumptions hist_inv3_step.
+
 (* ------------------------------------------------------------------ *)
 (* C18. For EVERY pool state satisfying the core invariant and every constraint value, the
    transactions handed out: total max_gas, total size and count within the limits, each pays at
@@ -137,6 +281,54 @@ Theorem exec_remove_keeps_sorted_partial : forall k l, sorted_keys l = true -> d
   sorted_keys (exec_remove k l) = true /\ denpos (exec_remove k l).
 Proof. exact exec_remove_sorted_all. Qed.
 Print Assumptions exec_remove_keeps_sorted_partial.
+
+(* ---- C18 over ALL histories: the executable list is sorted (and every key has positive
+   max_gas) in every reachable state, so [ratio_order_partial] applies to every reachable state
+   without its sortedness hypothesis ---- *)
+Theorem exec_sorted_all_histories : forall cfg d h ops,
+  Forall (fun wr => sorted_keys (p_exec (w_pool (fst wr))) = true /\ denpos (p_exec (w_pool (fst wr))))
+         (run (worker_new cfg d h) ops).
+Proof. exact exec_sorted_run. Qed.
+Print Assumptions exec_sorted_all_histories.
+
+Theorem ratio_order_all_histories : forall cfg d h ops,
+  Forall (fun wr => forall cs ps, ps_clean ps = [] ->
+            sorted_keys (ps_clean (pass cs (p_exec (w_pool (fst wr))) ps)) = true)
+         (run (worker_new cfg d h) ops).
+Proof. exact ratio_order_run. Qed.
+Print Assumptions ratio_order_all_histories.
+
+(* every key of the executable list, in every reachable state, is exactly the key (tip+1, max_gas,
+   creation instant, id) of a STORED transaction that has NO dependency in the pool: only
+   transactions whose parents all left the pool are offered to the selection *)
+Theorem exec_exact_all_histories : forall cfg d h ops,
+  Forall (fun wr => let p := w_pool (fst wr) in
+            forall k, In k (p_exec p) ->
+              exists n, get_node (p_g p) (k_id k) = Some n /\ k = key_of n /\
+                        has_dependencies (p_g p) (k_id k) = false)
+         (run (worker_new cfg d h) ops).
+Proof. exact exec_exact_run. Qed.
+Print Assumptions exec_exact_all_histories.
+
+(* ... and conversely every stored transaction without dependency in the pool has its key in the
+   executable list, in every reachable state: the selection is offered exactly the parentless
+   transactions *)
+Theorem exec_complete_all_histories : forall cfg d h ops,
+  Forall (fun wr => let p := w_pool (fst wr) in
+            forall id, has_node (p_g p) id = true -> has_dependencies (p_g p) id = false ->
+                       In id (map k_id (p_exec p)))
+         (run (worker_new cfg d h) ops).
+Proof. exact exec_complete_run. Qed.
+Print Assumptions exec_complete_all_histories.
+
+(* together: clause 10 of the checker pool_invb - the executable list is sorted, its keys are exact
+   keys of parentless stored transactions, every parentless stored transaction is in it - holds in
+   every state reachable by any list of operations *)
+Theorem inv_exec_all_histories : forall cfg d h ops,
+  Forall (fun wr => inv_exec (p_g (w_pool (fst wr))) (p_exec (w_pool (fst wr))) = true)
+         (run (worker_new cfg d h) ops).
+Proof. exact inv_exec_run. Qed.
+Print Assumptions inv_exec_all_histories.
 
 (* ------------------------------------------------------------------ *)
 (* C19. An accepted insertion implies: max_gas > 0, id not pooled, not recorded as spent, not
